@@ -30,6 +30,7 @@ EXPLANATION = (
     "R6 data_store has a single writer. R9 implicit array members inherit the access type of sub-index 1 (shared with C08.R11); R10 every set_data call in a handler reachable from on_request passes check_writable=True and no handler goes through the unchecked local download()/upload() helpers; R9 implicit array members inherit the access type of sub-index 1 and membership agrees with __getitem__ (shared with C08.R11); R10 every set_data call in a handler reachable from on_request passes check_writable=True and no handler goes through the unchecked local download()/upload() helpers; R11 ODVariable.__len__ per data type (the download length check uses it; shared with C04.R5); R8 structural assumptions shared by all properties: no class-level mutable object is mutated in place by instances, no method re-runs the constructor, logging statements cannot raise (typed eager formatting, divisions), no mutable default argument is kept or mutated, no new truth-value test of a None-able number, a look-up memory the pinned tree does not have is keyed by all its inputs (arithmetic keys folded over a grid of addresses) and, on the serving side, emptied somewhere."
     ' R5 also: SdoAbortedError accepts every 32-bit code (constructor specialised for boundary codes).'
     ' R2 also: every segmented transfer starts from a fresh buffer and toggle (shared server clause).'
+    " R2 also: nothing that can refuse the write runs after the store; R10 also: positional arguments of set_data are bound by LocalNode.set_data's own parameter list."
 )
 ASSUMPTIONS = [
     "not decided: random object dictionaries and request histories; write callbacks are opaque",
